@@ -28,6 +28,8 @@ type c20Stream struct {
 	hazard   string
 	perLine  int
 	maxLines int
+	// a literal was typed with line breaks in the place of its blanks
+	brokenLit bool
 }
 
 type c20Tok struct {
@@ -75,6 +77,9 @@ func genC20Stream(r *core.Rand, g *gen.StmtGen, long bool) c20Stream {
 	stmtsOnLine, maxOnLine := 0, 0
 	linesOfStmt, maxLinesOfStmt := 1, 1
 	var prevToks []string
+	// one stream in eight: literals typed over several lines (Enter in the
+	// place of a blank inside the quotes)
+	breakLits := !long && r.Chance(1, 8)
 	for i := 0; i < ns; i++ {
 		var n *proto.NStmt
 		if prevToks != nil && r.Chance(1, 6) {
@@ -83,6 +88,9 @@ func genC20Stream(r *core.Rand, g *gen.StmtGen, long bool) c20Stream {
 		} else if r.Chance(1, 3) {
 			// literal hazards on purpose
 			lits := []string{"a;b", ";", "x ; y", `say "hi"`, "it; is", "SELECT;", "two  spaces", ";;", "end;", "می\u200cخواهم;", "👨\u200d👩\u200d👧", "co\u00adoperate", "zero\u200bwidth", "\ufeffbom; x"}
+			if breakLits {
+				lits = []string{"x ; y", "one two; three", "a b c", "first; second; third; fourth", "; ; ;", "it; is", "select 1; select 2; select 3"}
+			}
 			n = &proto.NStmt{Kind: "insert", Name: "t", Rows: [][]proto.Val{{proto.Int(int64(i)), proto.Str(lits[r.Intn(len(lits))])}}}
 			if r.Bool() {
 				n = &proto.NStmt{Kind: "select", Star: true, From: []proto.NTable{{Name: []string{"t", "semi;colon", "o'hara", "my col"}[r.Intn(4)]}},
@@ -122,7 +130,19 @@ func genC20Stream(r *core.Rand, g *gen.StmtGen, long bool) c20Stream {
 			typed.WriteString(indent())
 		}
 		for ti, t := range toks {
-			typed.WriteString(t)
+			if breakLits && len(t) > 2 && t[0] == '\'' && strings.Contains(t, " ") {
+				b := []byte(t)
+				for x := range b {
+					if b[x] == ' ' && r.Chance(2, 3) {
+						b[x] = '\r'
+						st.brokenLit = true
+						linesOfStmt++
+					}
+				}
+				typed.Write(b)
+			} else {
+				typed.WriteString(t)
+			}
 			last := ti == len(toks)-1
 			switch {
 			case last && i == ns-1:
@@ -172,14 +192,17 @@ func genC20Stream(r *core.Rand, g *gen.StmtGen, long bool) c20Stream {
 	for h := range hz {
 		hs = append(hs, h)
 	}
+	if st.brokenLit {
+		hs = append(hs, "line_break_inside_literal")
+	}
 	st.hazard = strings.Join(hs, " ")
 	st.perLine, st.maxLines = maxOnLine, maxLinesOfStmt
 	return st
 }
 
 func checkC20(c *core.Ctx) []core.Floor {
-	c.Rule = "lists of 1-8 statements (from the C10 grammar plus literals and quoted identifiers containing semicolons, the other quote kind, spaces, keywords, non-ASCII text incl. zero-width joiners / non-joiners, soft hyphens and a byte order mark), each terminated by a semicolon, entered with line breaks (Enter = CR, as in raw mode) at random token boundaries - never inside a literal - several statements per line or one statement over many lines, now and then the same statement twice in a row; delivered byte by byte, in random small chunks that split UTF-8 sequences, or as full 256-byte reads (a paste is a fast byte stream: the console never enables bracketed paste). The real Terminal.ReadLine (driven in-package through a go test -overlay driver) is called until EOF; the submitted statements, tokenised with the real SQL tokenizer, must equal the typed statements one to one and in order. In addition 64 (quick) / 1600 (thorough) whole console sessions run end to end: the console's own runTerminal loop on a pseudo-terminal with a real engine.Session behind it, the keystrokes written to the pty master; the statements are INSERTs of (sequence number, literal) into one table, mixed with statements the engine rejects (unknown table, syntax error, type error) on the same and on other lines; afterwards the table must hold exactly the valid INSERTs' rows, once each and in order, literals intact. Distinct = keystroke stream + chunking; non-trivial = a literal contains a semicolon, or a line carries several statements, or a statement spans several lines."
-	c.Assume = []string{"what a line break inside a literal should become is not stated by the property: never generated", "one stream in fifty carries a statement of 4-40 KB"}
+	c.Rule = "lists of 1-8 statements (from the C10 grammar plus literals and quoted identifiers containing semicolons, the other quote kind, spaces, keywords, non-ASCII text incl. zero-width joiners / non-joiners, soft hyphens and a byte order mark), each terminated by a semicolon, entered with line breaks (Enter = CR, as in raw mode) at random token boundaries - and, in one stream in eight, inside literals in the place of their blanks (also right after a semicolon of the literal); for those streams white space inside tokens is not compared, everything else is - several statements per line or one statement over many lines, now and then the same statement twice in a row; delivered byte by byte, in random small chunks that split UTF-8 sequences, or as full 256-byte reads (a paste is a fast byte stream: the console never enables bracketed paste). The real Terminal.ReadLine (driven in-package through a go test -overlay driver) is called until EOF; the submitted statements, tokenised with the real SQL tokenizer, must equal the typed statements one to one and in order. In addition 64 (quick) / 1600 (thorough) whole console sessions run end to end: the console's own runTerminal loop on a pseudo-terminal with a real engine.Session behind it, the keystrokes written to the pty master; the statements are INSERTs of (sequence number, literal) into one table, mixed with statements the engine rejects (unknown table, syntax error, type error) on the same and on other lines; afterwards the table must hold exactly the valid INSERTs' rows, once each and in order, literals intact. Distinct = keystroke stream + chunking; non-trivial = a literal contains a semicolon, or a line carries several statements, or a statement spans several lines."
+	c.Assume = []string{"what a line break inside a literal should become (blank, line break, nothing) is not stated by the property: streams with such breaks are compared modulo white space inside tokens", "one stream in fifty carries a statement of 4-40 KB"}
 	bin, err := buildOverlayTest(c, "cmd/console", "console_driver_test.go", "zz_verif_driver_test.go")
 	if err != nil {
 		fmt.Printf("BUILD-FAILED property=C20\n%v\n", err)
@@ -284,6 +307,16 @@ func judgeC20(c *core.Ctx, st c20Stream, o c20Out) {
 		a, b := o.Want[i], o.Got[i]
 		same := len(a) == len(b)
 		for k := 0; same && k < len(a); k++ {
+			if st.brokenLit {
+				// what Enter inside the quotes becomes (a blank, a line
+				// break, nothing) is not stated: white space inside the
+				// tokens of such a stream is not compared
+				strip := func(x string) string { return strings.NewReplacer(" ", "", "\r", "", "\n", "").Replace(x) }
+				if a[k].T != b[k].T || strip(a[k].X) != strip(b[k].X) {
+					same = false
+				}
+				continue
+			}
 			if a[k] != b[k] {
 				same = false
 			}
